@@ -20,8 +20,8 @@ RULE = (
     'identical under the change of input units. Non-trivial: volume present and >=2 components, or non-default '
     'input units. Round 4: substances with a proportion, fractional dict amounts after a sibling with the same '
     'symbols, add() inside an open with-block, number densities given in pm-3 / nm-3. Later rounds: a refused '
-    'formula earlier in the process; data_matter() as quantities against the number table. Distinct = distinct '
-    'case JSON.'
+    'formula earlier in the process; data_matter() as quantities against the number table. Round 7: dilute gases '
+    'and nanometre volumes (fewer than 1e6 formula units). Distinct = distinct case JSON.'
 )
 ASSUMPTIONS = ["relative tolerance 1e-9", "composites have at least one component; densities and volumes are positive"]
 NT_FLOOR = 0.4
